@@ -1,5 +1,5 @@
 SPECIFICATION Spec
-CONSTANTS DimSeq <- Dims2 MaskSeq <- Masks13 CliSeq <- Clis2 DestSeq <- Dest3 PathSeq <- NoSeq Toks <- None
+CONSTANTS DimSeq <- Dims2 MaskSeq <- MasksF CliSeq <- Clis2 DestSeq <- Dest3 PathSeq <- NoSeq Toks <- None
   Impl = "c" WithAll = FALSE Acts <- ActsC MaxTab = 3
   ItemSet <- None MaxItems = 0 GapSet <- None EdgeGaps <- None
   Letters <- None MaxLetters = 0 LetterGaps <- None NodeSet <- None MaxNodes = 0
